@@ -69,9 +69,58 @@ def expModn {α} (mul : α → α → α) (one g : α) (exp : Nat) : Option α :
     | none => none
     | some (res, consumed) => expLoop mul g g3 g5 g7 65 (exprev / 2 ^ consumed) (i + consumed) res
 
-/-! ### chebyshev_modn -/
-
 def bitlen (n : Nat) : Nat := if n = 0 then 0 else Nat.log2 n + 1
+
+/-! ### exp_modn_large -/
+
+/-- `g_smalls`: `[g, g^3, .., g^63]` built by `gk = gk * g2` -/
+def smallPows {α} (mul : α → α → α) (g2 : α) : Nat → α → List α
+  | 0, _ => []
+  | n + 1, gk => gk :: smallPows mul g2 n (mul gk g2)
+
+/-- `n` squarings -/
+def sqN {α} (mul : α → α → α) : Nat → α → α
+  | 0, x => x
+  | n + 1, x => sqN mul n (mul x x)
+
+/-- `blk.trailing_zeros()` for `0 < blk < 64` -/
+def tz6 : Nat → Nat → Nat
+  | 0, _ => 0
+  | f + 1, b => if b % 2 = 1 then 0 else 1 + tz6 f (b / 2)
+
+/-- the 6-bit block `(exp >> offset) & 63` (`expblock`: the three word-extraction cases all compute this) -/
+def expBlock (exp offset : Nat) : Nat := exp / 2 ^ offset % 64
+
+/-- the main loop of `exp_modn_large`; `none` = index out of range in `g_smalls` -/
+def largeLoop {α} (mul : α → α → α) (g : α) (smalls : List α) (exp : Nat) : Nat → Nat → α → Option α
+  | 0, _, _ => none
+  | f + 1, rem, gk =>
+    if rem = 0 then some gk
+    else if exp / 2 ^ (rem - 1) % 2 = 0 then largeLoop mul g smalls exp f (rem - 1) (mul gk gk)
+    else if rem ≥ 6 then
+      let blk := expBlock exp (rem - 6)
+      let tz := tz6 6 blk
+      match smalls[blk / 2 ^ (tz + 1)]? with
+      | none => none
+      | some s => largeLoop mul g smalls exp f (rem - 6) (sqN mul tz (mul (sqN mul (6 - tz) gk) s))
+    else largeLoop mul g smalls exp f (rem - 1) (mul (mul gk gk) g)
+
+/-- `exp_modn_large(zn, g, exp)` for a 1024-bit exponent -/
+def expModnLarge {α} (mul : α → α → α) (one g : α) (exp : Nat) : Option α :=
+  let bl := bitlen exp
+  if bl = 0 then some one
+  else if bl = 1 then some g
+  else if bl ≤ 64 then expModn mul one g (exp % 2 ^ 64)
+  else
+    let g2 := mul g g
+    let smalls := smallPows mul g2 32 g
+    let blk := expBlock exp (bl - 6)
+    let tz := tz6 6 blk
+    match smalls[blk / 2 ^ (tz + 1)]? with
+    | none => none
+    | some s => largeLoop mul g smalls exp 1025 (bl - 6) (sqN mul tz s)
+
+/-! ### chebyshev_modn -/
 
 /-- `for i in 1..expbits`: state `(p_k, p_kp1)` -/
 def chebLoop {α} (mul sub : α → α → α) (two g : α) (exp expbits : Nat) : Nat → Nat → α × α → α × α
